@@ -1,11 +1,347 @@
 import DaeVerif.C17.Proofs
-/-! # C17 — property theorems -/
+/-!
+# C17 — property theorems
+
+Only statements a reader should audit live here (namespace `DaeVerif.C17.Props`); the proofs are
+in `ParserProofs`, `LexProofs`, `MergeProofs`, `ConfigProofs`, `DefaultsProofs`.  Every theorem is
+about the definitions of `Model.lean`, the same ones the driver `c17drv` executes against the real
+code on every check.  Each theorem is followed by a non-vacuity `example`.
+
+Reading guide (clauses of the property → theorems):
+* "parsed into sections, parameters and rules that correspond one-to-one, in order, to what is
+  written"  → `tokens_iff_tree`, `parse_spells`, `parse_render`, `parse_render_canonical`,
+  `lexer_reads_back`, `walk_keeps_every_item`, `walkFn_faithful`
+* "comments and whitespace anywhere" → `skips_whitespace`, `skips_line_comment`, `skips_concat`
+* "rejected with an error … never crashes" → `parse_total` (model; the Go side is the tie)
+* "applies documented defaults" → `defaults_applied`
+* "rejects unknown sections and keys, missing required ones" → `unknown_section_rejected`,
+  `missing_required_section_rejected`, `unknown_key_rejected`, `missing_required_key_rejected`
+* "rule programs beyond the supported size" → `oversize_rejected`, `compiled_within_limit`
+* "merges included files deterministically (the including file first, then each included file in
+  listed order)" → `merge_order`, `merge_into_appends`
+* "rejecting circular includes" → `circular_include_rejected`, `include_of_visited_rejected`,
+  `merge_no_file_twice`
+* "never reading a file that is not a .dae file or that lies outside the entry configuration
+  directory" → `merge_reads_confined`, `confined_means_under`
+-/
 namespace DaeVerif.C17.Props
 open DaeVerif.C17
 
-/-- The model parser is total: every text is rejected or yields sections. -/
+/-- the character table probed from the real lexer (what the harness sends on every run) -/
+def stdK : Classes :=
+  Classes.ofTable 0x7fffffe87fffffe0000000000000000 0x5000000003ffec0000000000 0x12000003a00000000 0x100002600
+
+/-! ## 1. Text ↔ tokens ↔ tree -/
+
+/-- **Totality (model).** Every text is rejected or parsed into sections; there is no third
+outcome.  (Totality of the Go code is what the correspondence streams check.) -/
 theorem parse_total (K : Classes) (text : List Char) :
     parse K text = none ∨ ∃ ss, parse K text = some ss := by
   cases parse K text <;> simp
+
+example : parse stdK [] = some [] := by
+  simp [parse, lex, parseToks, parseProg, walkProg]
+
+/-- **One-to-one, in order (token level).** The token-level parser accepts a token sequence with
+tree `p` exactly when `p` spells that sequence token for token, in order: section names, keys,
+bare and quoted literals (with their quoting style), `!`, `&&` chains, `->` outbounds with
+parameters, nested sections, `[...]` annotations. -/
+theorem tokens_iff_tree (ts : List Tok) (p : Prog) : parseToks ts = .ok p ↔ progToks p = ts :=
+  ⟨parseToks_sound, fun h => h ▸ parseToks_complete p⟩
+
+example : parseToks [.id ['a'], .lbrace, .id ['b'], .colon, .quote '\'' ['c'], .rbrace]
+    = .ok [(['a'], .decl ⟨['b'], .lits (.quote '\'' ['c']) [], none⟩ .nil)] := by rfl
+
+/-- **What an accepted text spells.** If a text is accepted, its token sequence is exactly the
+spelling of some tree, and the sections returned are that tree as the Walker reads it. -/
+theorem parse_spells (K : Classes) (text : List Char) (ast : List ASection) (h : parse K text = some ast) :
+    ∃ p, lex K text = some (progToks p) ∧ walkProg p = some ast := by
+  unfold parse at h
+  split at h
+  · simp at h
+  · rename_i ts hl
+    split at h
+    · simp at h
+    · rename_i p hp
+      exact ⟨p, by rw [hl, parseToks_sound hp], h⟩
+
+/-- **The lexer reads a rendering back.** For a well-formed class table, admissible tokens and
+admissible text between them (nothing, or skipped text starting with whitespace), the lexer
+returns exactly the rendered tokens. -/
+theorem lexer_reads_back (K : Classes) (hK : K.WF) (tss : List (Tok × List Char))
+    (htok : ∀ x ∈ tss, TokOK K x.1) (hsep : SepsOK K tss) :
+    lex K (renderToks tss) = some (tss.map (·.1)) :=
+  lex_renderToks hK tss htok hsep
+
+/-- **parse ∘ render.** Rendering any tree with admissible tokens — any quoting style the tree
+carries, any admissible text (whitespace, comments, or nothing where harmless) after each token,
+any skipped text in front — and parsing it gives back exactly what the Walker makes of the tree:
+names, keys, values, negations, `&&` chains, outbounds with parameters, nesting, annotations, in
+order; or the Walker's error when a function or annotation has no parameter. -/
+theorem parse_render (K : Classes) (hK : K.WF) (p : Prog) (seps : List (List Char)) (lead : List Char)
+    (hlen : seps.length = (progToks p).length)
+    (htok : ∀ t ∈ progToks p, TokOK K t)
+    (hsep : SepsOK K ((progToks p).zip seps)) (hlead : Skips K lead) :
+    parse K (lead ++ renderToks ((progToks p).zip seps)) = walkProg p := by
+  have hmap : ((progToks p).zip seps).map (·.1) = progToks p := by
+    rw [List.map_fst_zip]; omega
+  have hl : lex K (lead ++ renderToks ((progToks p).zip seps)) = some (progToks p) := by
+    rw [hlead, lex_renderToks hK _ ?_ hsep, hmap]
+    intro x hx
+    exact htok x.1 (by
+      have := List.mem_map_of_mem (f := Prod.fst) hx
+      rwa [hmap] at this)
+  unfold parse
+  rw [hl]
+  simp only [parseToks_complete]
+
+/-- the canonical printer (one space after every token) is a special case -/
+theorem parse_render_canonical (K : Classes) (hK : K.WF) (hsp : K.ws ' ' = true) (p : Prog)
+    (htok : ∀ t ∈ progToks p, TokOK K t) : parse K (render p) = walkProg p := by
+  have hgen : ∀ ts : List Tok, (∀ t ∈ ts, TokOK K t) →
+      lex K (renderToks (ts.map fun t => (t, [' ']))) = some ts := by
+    intro ts hts
+    have hs : SepsOK K (ts.map fun t => (t, [' '])) := by
+      clear hts
+      induction ts with
+      | nil => trivial
+      | cons t ts ih => exact ⟨Or.inr ⟨skips_ws hsp, ' ', [], rfl, hsp⟩, ih⟩
+    have := lex_renderToks hK (ts.map fun t => (t, [' '])) (by
+      intro x hx
+      obtain ⟨t, ht, rfl⟩ := List.mem_map.mp hx
+      exact hts t ht) hs
+    simpa [List.map_map, Function.comp_def] using this
+  unfold parse render
+  rw [hgen _ htok]
+  simp only [parseToks_complete]
+
+/-- the probed table satisfies the hypotheses (`wfCheck` is what the driver evaluates at run time) -/
+theorem wfCheck_establishes_WF (a b c d : Nat) (h : (Classes.ofTable a b c d).wfCheck = true) :
+    (Classes.ofTable a b c d).WF := wfCheck_sound a b c d h
+
+example : stdK.wfCheck = true ∧ stdK.ws ' ' = true := by decide
+
+/-- a concrete rendering: `r { ! d ( s : "a b" ) -> p }` comes back as the rule it spells -/
+example : parse stdK (render [(['r'],
+      .rule ⟨⟨true, ['d'], [⟨some ['s'], .quote '"' ['a', ' ', 'b']⟩]⟩, [], .id ['p']⟩ .nil)])
+    = some [⟨['r'], [.rule [⟨['d'], true, [⟨['s'], ['a', ' ', 'b']⟩]⟩] ⟨['p'], false, []⟩]⟩] := by
+  have hK := wfCheck_sound _ _ _ _ (show stdK.wfCheck = true by decide)
+  rw [parse_render_canonical stdK hK (by decide)]
+  · rfl
+  · intro t ht
+    simp only [progToks, Items.toks, CRule.toks, fnsToks, fnsTail, CFn.toks, paramsToks, paramsTail, CParam.toks,
+      COut.toks, Lit.tok, List.flatMap_nil, List.append_nil, List.cons_append, List.nil_append, if_true,
+      List.mem_cons, List.not_mem_nil, or_false] at ht
+    rcases ht with rfl | rfl | rfl | rfl | rfl | rfl | rfl | rfl | rfl | rfl | rfl | rfl <;>
+      first
+        | trivial
+        | exact ⟨_, _, rfl, by decide, by decide⟩
+        | exact ⟨Or.inl rfl, by decide⟩
+
+/-- whitespace may be put anywhere between tokens … -/
+theorem skips_whitespace (K : Classes) (w : Char) (hw : K.ws w = true) : Skips K [w] := skips_ws hw
+
+/-- … and so may `#` comments (body without a newline, then a newline) … -/
+theorem skips_line_comment (K : Classes) (hK : K.WF) (body : List Char) (n : Char)
+    (hb : body.all (fun c => !isNL c) = true) (hn : isNL n = true) : Skips K ('#' :: (body ++ [n])) :=
+  skips_lineComment hK body n hb hn
+
+/-- … and any concatenation of skipped pieces. -/
+theorem skips_concat (K : Classes) (a b : List Char) (ha : Skips K a) (hb : Skips K b) : Skips K (a ++ b) :=
+  skips_append ha hb
+
+example : Skips stdK ([' '] ++ ('#' :: ([' ', 'x', '{', '"', '\''] ++ ['\n'])) ++ ['\t']) := by
+  have hK := wfCheck_sound _ _ _ _ (show stdK.wfCheck = true by decide)
+  have h1 : Skips stdK [' '] := skips_ws (by decide)
+  have h2 : Skips stdK ('#' :: ([' ', 'x', '{', '"', '\''] ++ ['\n'])) :=
+    skips_lineComment hK _ _ (by decide) (by decide)
+  have h3 : Skips stdK ['\t'] := skips_ws (by decide)
+  exact skips_append (skips_append h1 h2) h3
+
+/-- **The Walker keeps every item, in order**: one AST item per written item. -/
+theorem walk_keeps_every_item (items : Items) (as : List AItem) (h : walkItems items = some as) :
+    as.length = items.heads.length := walkItems_heads items as h (fun _ _ _ => trivial)
+
+/-- **A function is read faithfully** (name, negation, every parameter's key and raw value, in
+order), and the only thing the Walker refuses is an empty parameter list. -/
+theorem walkFn_faithful (f : CFn) :
+    (f.params = [] → walkFn f = none) ∧
+    (f.params ≠ [] → walkFn f = some ⟨f.name, f.neg, f.params.map CParam.kv⟩) := by
+  unfold walkFn
+  constructor
+  · intro h; simp [h]
+  · intro h; simp [h]
+
+/-! ## 2. Include merging -/
+
+/-- **Order.** The merged map of a file is its own sections first, then, section by section, the
+merged map of every included file in the order the includes are listed, depth first. -/
+theorem merge_order (K : Classes) (fs : FS) (dir : List Char) (n : Nat) (st st' : MState)
+    (entry : List Char) (m : SMap) (h : dfsMerge K fs dir (n + 1) st entry = (st', .ok m)) :
+    ∃ st1 own pats children ms,
+      readEntry K fs dir st entry = (st1, .ok own) ∧
+      includePatterns dir (own.get "include".toList) = .ok pats ∧
+      unsqueeze fs pats = .ok children ∧
+      ChildMaps K fs dir n st1 children ms ∧
+      ∀ name, m.get name = own.get name ++ ms.flatMap (fun mc => mc.getAll name) :=
+  dfsMerge_order K fs dir n st st' entry m h
+
+/-- merging a child appends its items after the father's, section by section -/
+theorem merge_into_appends (father child : SMap) (name : List Char) :
+    (mergeInto father child).get name = father.get name ++ child.getAll name :=
+  mergeInto_get child father name
+
+/-- **Circular includes.** A file already merged is rejected before it is opened again … -/
+theorem circular_include_rejected (K : Classes) (fs : FS) (dir : List Char) (n : Nat) (st : MState)
+    (entry : List Char) (h : entry ∈ st.visited) :
+    dfsMerge K fs dir (n + 1) st entry = (st, .error .circular) := by
+  rw [dfsMerge, readEntry_circular K fs dir st entry h]
+
+/-- … so an include edge that points back to any file already visited — in particular the edge
+that would close a cycle — fails the whole merge. -/
+theorem include_of_visited_rejected (K : Classes) (fs : FS) (dir : List Char) (n : Nat) (st : MState)
+    (acc : SMap) (c : List Char) (cs : List (List Char)) (h : c ∈ st.visited) :
+    dfsChildren K fs dir (n + 1) st acc (c :: cs) = (st, .error .circular) := by
+  rw [dfsChildren, circular_include_rejected K fs dir n st c h]
+
+/-- **No file twice.** Whatever the include graph, the list of merged files has no duplicates. -/
+theorem merge_no_file_twice (K : Classes) (fs : FS) (fuel : Nat) (entry : List Char) :
+    (merge K fs fuel entry).1.visited.Nodup :=
+  dfsMerge_visited_nodup K fs _ fuel ⟨[], []⟩ entry List.nodup_nil
+
+/-- **Confinement.** Whatever the include graph (globs, nesting, cycles, absolute or relative
+paths, `..`), and whether or not the merge succeeds, every file handed to `os.Open` ends in
+`.dae` and passed `EnsureFileInSubDir` against the entry file's directory. -/
+theorem merge_reads_confined (K : Classes) (fs : FS) (fuel : Nat) (entry : List Char) :
+    ∀ p ∈ (merge K fs fuel entry).1.opened, Confined (dirOf entry) p := by
+  intro p hp
+  rcases dfsMerge_opened_confined K fs (dirOf entry) fuel ⟨[], []⟩ entry p hp with h | h
+  · simp at h
+  · exact h
+
+/-- … and passing that check means, lexically: the file's cleaned directory is the entry
+directory or extends its components by components not starting with `..`. -/
+theorem confined_means_under (file dir : List Char) (h : ensureInSubDir file dir = true) :
+    dir ≠ [] ∧
+    (cleanPath (dirOf file) = cleanPath dir ∨
+      ∃ rest, targComps (cleanPath (dirOf file)) = cleanComps (relBase (cleanPath dir)) ++ rest ∧
+        isAbsPath (relBase (cleanPath dir)) = isAbsPath (cleanPath (dirOf file)) ∧
+        restOK rest = true) :=
+  ensureInSubDir_lexical file dir h
+
+example : ensureInSubDir ['/', 'e', '/', 's', '/', 'a'] ['/', 'e'] = true ∧
+    ensureInSubDir ['/', 'e', '/', '.', '.', '/', 'b'] ['/', 'e'] = false ∧
+    ensureInSubDir ['/', 'e', 'x', '/', 'b'] ['/', 'e'] = false := by decide
+
+/-- Termination of the real merger on a finite directory tree: stated, not proved (the model
+takes the number of files + 2 as fuel; the tie exercises cyclic graphs). -/
+def merge_terminates_full : Prop :=
+  ∀ (K : Classes) (fs : FS) (files : List (List Char)) (entry : List Char),
+    (∀ p, (fs.stat p).isSome → p ∈ files) →
+    (merge K fs (files.length + 2) entry).2 ≠ .error .fuel
+
+/-! ## 3. Typed configuration -/
+
+/-- **Unknown sections** are an error (whatever else the configuration contains). -/
+theorem unknown_section_rejected (S : Schema) (dec : Dec) (fuel : Nat) (ss : List ASection)
+    (h : ∃ s ∈ ss, s.name ≠ "include".toList ∧ ∀ sp ∈ S.specs, sp.name ≠ s.name) :
+    ∃ e, configNew S dec fuel ss = .error e :=
+  configNew_unknown_section S dec fuel ss h
+
+/-- **Missing required sections** are an error. -/
+theorem missing_required_section_rejected (S : Schema) (dec : Dec) (fuel : Nat) (ss : List ASection)
+    (h : ∃ sp ∈ S.specs, sp.required = true ∧ ∀ s ∈ ss, s.name ≠ sp.name) :
+    configNew S dec fuel ss = .error (.requiredSection, []) :=
+  configNew_missing_required S dec fuel ss h
+
+/-- **Unknown keys** (and key-less text, and rules where no rules belong) are an error: if
+`ParamParser` succeeds, every item was admissible for the struct. -/
+theorem unknown_key_rejected (S : Schema) (dec : Dec) (n sid : Nat) (path : Path) (items : List AItem)
+    (st st' : Store) (h : paramParser S dec (n + 1) sid path items st = .ok st') :
+    ∃ sd, S.structs[sid]? = some sd ∧ ∀ it ∈ items, itemAdmissible sd it := by
+  obtain ⟨sd, h1, h2, _⟩ := paramParser_ok S dec n sid path items st st' h
+  exact ⟨sd, h1, h2⟩
+
+/-- **Missing required keys** are an error: if `ParamParser` succeeds, every `required` field's
+key is written in the section. -/
+theorem missing_required_key_rejected (S : Schema) (dec : Dec) (n sid : Nat) (path : Path)
+    (items : List AItem) (st st' : Store) (h : paramParser S dec (n + 1) sid path items st = .ok st') :
+    ∃ sd, S.structs[sid]? = some sd ∧
+      ∀ f ∈ sd.fields, f.required = true → ∃ it ∈ items, it.key? = some f.key := by
+  obtain ⟨sd, h1, _, h3⟩ := paramParser_ok S dec n sid path items st st' h
+  exact ⟨sd, h1, h3⟩
+
+/-- **Documented defaults are applied — full strength.** In the typed configuration returned by
+`config.New`, every scalar field of a top-level struct section (`global`, `routing`, `dns`) that
+carries a `default:` tag and is not written in the configuration holds the decoded default,
+whether its section is present or omitted (2aec039).  Excluded by hypothesis are only the fields
+the patch stage rewrites on purpose (`global.tcp_check_http_method`, `routing.fallback`) and the
+derived flag `global.so_mark_from_dae_set`. -/
+theorem defaults_applied (S : Schema) (dec : Dec) (fuel : Nat) (ss : List ASection) (st' : Store)
+    (h : configNew S dec fuel ss = .ok st') (hnames : (S.specs.map (·.name)).Nodup)
+    (sp : SectionSpec) (hsp : sp ∈ S.specs) (sid : Nat) (sd : StructDef) (hkind : sp.kind = .struct sid)
+    (hsd : S.structs[sid]? = some sd) (hfnd : (sd.fields.map (·.key)).Nodup)
+    (f : Field) (hf : f ∈ sd.fields) (k : Nat) (d : List Char) (hk : f.kind = .scalar k) (hd : f.dflt = some d)
+    (hrk : f.key ≠ rulesKey) (hso : [sp.name, f.key] ≠ soMarkPath)
+    (hp1 : pHttpMethod ≠ [sp.name, f.key]) (hp2 : pFallback ≠ [sp.name, f.key])
+    (hno : ∀ it ∈ itemsOf ss sp.name, it.key? ≠ some f.key) :
+    ∃ c, dec k d = some c ∧ st'.get? [sp.name, f.key] = some (.scalar k c) :=
+  configNew_defaults S dec fuel ss st' h hnames sp hsp sid sd hkind hsd hfnd f hf k d hk hd hrk hso hp1 hp2 hno
+
+/-- the same for a struct at any nesting depth (`dns.routing.request`, a `group` element, …): after
+a successful `ParamParser`, an unwritten scalar field with a `default:` tag holds its default -/
+theorem defaults_applied_any_depth (S : Schema) (dec : Dec) (n sid : Nat) (path : Path) (items : List AItem)
+    (st st' : Store) (h : paramParser S dec (n + 1) sid path items st = .ok st')
+    (sd : StructDef) (hsd : S.structs[sid]? = some sd) (hnd : (sd.fields.map (·.key)).Nodup)
+    (f : Field) (hf : f ∈ sd.fields) (k : Nat) (d : List Char) (hk : f.kind = .scalar k) (hd : f.dflt = some d)
+    (hrk : f.key ≠ rulesKey) (hno : ∀ it ∈ items, it.key? ≠ some f.key) :
+    ∃ c, dec k d = some c ∧ st'.get? (sub path f.key) = some (.scalar k c) :=
+  paramParser_defaults S dec n sid path items st st' h sd hsd hnd f hf k d hk hd hrk hno
+
+/-- a miniature schema: one optional struct section `d` with a field `o` defaulting to `1`; the
+empty configuration is accepted and the omitted section's default is in the typed result -/
+example :
+    let S : Schema := ⟨[⟨[⟨['o'], .scalar 1, some ['1'], false, false⟩], false⟩, ⟨[], true⟩],
+                       [⟨['d'], false, .struct 0⟩, ⟨"routing".toList, false, .struct 1⟩]⟩
+    let dec : Dec := fun _ v => some v
+    ∃ st, configNew S dec 4 [] = .ok st ∧ st.get? [['d'], ['o']] = some (.scalar 1 ['1']) := by
+  intro S dec
+  have hok : ∃ st, configNew S dec 4 [] = .ok st := by
+    simp [S, dec, configNew, decodeSpecs, lookupSection, sectionParser, paramParser, applyDefaults, paramItems,
+      checkRequired, applyPatches, patchMustFallback, patchMustRules, patchEmptyDns, patchHttp, putIfAbsent,
+      scalarAt, Store.get?, Store.put, sub, pBootstrap, pHttpMethod, pReqFallback, pRespFallback, pRules,
+      pFallback, kindAddrPort, kindHttpMethod]
+  obtain ⟨st, hst⟩ := hok
+  refine ⟨st, hst, ?_⟩
+  obtain ⟨c, hc, hget⟩ := configNew_defaults S dec 4 [] st hst (by simp [S]) ⟨['d'], false, .struct 0⟩
+    (by simp [S]) 0 ⟨[⟨['o'], .scalar 1, some ['1'], false, false⟩], false⟩ rfl rfl (by simp)
+    ⟨['o'], .scalar 1, some ['1'], false, false⟩ (by simp) 1 ['1'] rfl rfl (by decide) (by decide) (by decide)
+    (by decide) (by simp [itemsOf, lookupSection])
+  simp only [dec, Option.some.injEq] at hc
+  subst hc
+  exact hget
+
+/-- **Oversized rule programs** are a build error, never an out-of-range access: a program that
+lowers to a domain set at a match-set index ≥ the table size is rejected. -/
+theorem oversize_rejected (emit : List Char → Option Emit) (maxLen : Nat) (rules : List (List Fn × Fn))
+    (k : Nat) (ds : List Nat) (hl : lowerRules emit rules 0 = .ok (k, ds)) (hbig : ∃ i ∈ ds, maxLen ≤ i) :
+    compileSize emit maxLen rules = .error .oversize :=
+  compileSize_oversize emit maxLen rules k ds hl hbig
+
+/-- … and a program that compiles keeps every domain set inside the table. -/
+theorem compiled_within_limit (emit : List Char → Option Emit) (maxLen : Nat) (rules : List (List Fn × Fn))
+    (n : Nat) (h : compileSize emit maxLen rules = .ok n) :
+    ∃ ds, lowerRules emit rules 0 = .ok (n - 1, ds) ∧ 1 ≤ n ∧ ∀ i ∈ ds, i < maxLen :=
+  compileSize_ok emit maxLen rules n h
+
+example : compileSize (fun n => if n = ['d'] then some .domain else if n = ['p'] then some .perValue else none) 2
+      [([⟨['p'], false, [⟨[], ['8', '0']⟩, ⟨[], ['4', '4', '3']⟩]⟩], ⟨['o'], false, []⟩),
+       ([⟨['d'], false, [⟨['f'], ['x']⟩]⟩], ⟨['o'], false, []⟩)]
+    = .error .oversize ∧
+    compileSize (fun n => if n = ['d'] then some .domain else if n = ['p'] then some .perValue else none) 3
+      [([⟨['p'], false, [⟨[], ['8', '0']⟩, ⟨[], ['4', '4', '3']⟩]⟩], ⟨['o'], false, []⟩),
+       ([⟨['d'], false, [⟨['f'], ['x']⟩]⟩], ⟨['o'], false, []⟩)]
+    = .ok 4 := by
+  constructor <;> rfl
 
 end DaeVerif.C17.Props
